@@ -47,4 +47,11 @@ NOTES = {
             'note': SEQ_NOTE + ' Partial: concurrent histories and the striped adder are not yet covered.'},
 }
 
+NOTES['C18'] = {'technique': 'Lean 4 proof over a transcription of sketch.go (mixers regenerated) + exact white-box differential',
+    'engine': 'proof+unit-sketch',
+    'text': 'Theorems for every table/hash/counter: estimate <= 15; zero and no-op before initialisation; increment (unrolled) and frequency (loop) address the same four counters; '
+            'nibble lemmas (adding 16^j to a word whose j-th 4-bit counter is < 15 increments exactly that counter, all others unchanged); admission decision exactly (candidate > victim) or (candidate >= 6 and 1/128 draw). '
+            'Tie: UNIT-sketch reproduces the real table digest and size after every call (saturation, resets, resizes, non-power-of-two capacities); spread/rehash are translated from the source.',
+    'note': 'Trusted: Lean kernel; translator; the white-box differential (bounded by generated sequences; tables up to 8192 words). Partial: the under-count bound over whole recording sequences and the halving step are proved at nibble level (Proofs.Nibble), not yet lifted to the BitVec table model; maphash itself is a parameter.'}
+
 NOT_APPLICABLE = {}
